@@ -79,6 +79,7 @@ class Engine:
         except ImportError:
             pass
         self.assumptions = []  # free-text list of assumed facts (axioms, external contracts)
+        self.used_assumed = {}  # assumed contract -> verified functions that call it
         self.hyp_origin = {}  # str(hypothesis term) -> origin tag ('callee-post')
         self._oid = itertools.count(1)
         self._ast_cache = {}
